@@ -44,7 +44,7 @@ ASSUMPTIONS = [
     'characters(letters/lowercase/uppercase) denote the ASCII letters (locale-independent reading of the docstring)',
 ]
 BOUNDS = {
-    'quick': 'strings: all of length <= 3 over {a,b,space,e-acute} (85) + 14 Unicode samples under every string function '
+    'quick': 'strings: all of length <= 3 over {a,b,space,e-acute} (85) + 16 Unicode samples under every string function '
              '(substring start x length, indexOf/lastIndexOf with 6 substrings x start, split/rightSplit x 5 separators x '
              '4 limits, trim family x 5 char sets, replace 6x4x5, 16 ordered dictionaries x 4 counts, affixes, operators); '
              'the 16 strings of length 4 over {a,b} under substring with every start x length; 4-argument indexOf/lastIndexOf on '
@@ -54,10 +54,10 @@ BOUNDS = {
              'core forms; '
              'every (pattern <= 2 atoms, flag set) also built with positional flags, a skipped slot, on the legacy engine '
              'and through context("regex", engine)(...), each judged by searchAll on 4 flag-sensitive probes; a '
-             'representative form of every function family (21 string forms x 35 strings, characters, 6 regex forms x 12 '
+             'representative form of every function family (21 string forms x 37 strings, characters, 6 regex forms x 12 '
              'patterns x 17 strings) under 3 engine option sets (iterator/memory limits, convertOutputData off, '
              'convertInputData off)',
-    'thorough': 'strings: all of length <= 4 (341) + 14 samples under every string function, 10 substrings, 4-argument '
+    'thorough': 'strings: all of length <= 4 (341) + 16 samples under every string function, 10 substrings, 4-argument '
                 'indexOf/lastIndexOf on all, operators against all strings of length <= 3; regex: all patterns of <= 3 '
                 'atoms x 8 flag sets x 28 strings x 6 core forms, and without flags 26 forms x 28 strings (55 strings for <= 2 atoms); '
                 'the 4 other flag spellings for every (pattern <= 2 atoms, flag set) and for 3-atom patterns where multiLine != dotAll; '
@@ -69,7 +69,7 @@ BOUNDS = {
 # ---------------------------------------------------------------------------
 ALPHA = ['a', 'b', ' ', '\xe9']
 SAMPLES = ['\U0001f600', 'a\U0001f600b', '\ta\t', 'A', 'aB', 'Ab ', '\xc9a', '\xdf', 'ǅb',
-           '\xa0a\xa0', 'a\nb', ' \t\n', 'ABab', 'aaaaab']
+           '\xa0a\xa0', 'a\nb', ' \t\n', 'ABab', 'aaaaab', '\xa0', '\u2003\x1f\x85']   # the last two: non-ASCII whitespace only
 
 
 def over(alpha, maxlen):
